@@ -132,6 +132,16 @@ CLAIMS = {
         note='Not decided: behaviour for every fragmentation of the first 16 bytes (reduced to the no-consume and retrying-recv rules), the numeric 1.5 factor (only dependence on '
              'CONNECT.keep_alive), behaviour when each limit is probed. The client topic-alias literal (D12) is reported under C17.',
         ref='DESIGN.md section 5 C19'),
+    'C18': dict(
+        technique='automaton extraction from MIR + product-construction equivalence with a spec DFA; extracted match tables checked exhaustively over level kinds (static analysis)',
+        text='The byte automaton of topic::is_valid (PrevState x {+,#,/,other}) is extracted from MIR and proved equivalent to the MQTT 4.7.1 validity automaton '
+             '(spec/topic_filter_dfa.json) by product construction over all strings (no length bound), incl. empty-string rejection and accept-at-end; SUBSCRIBE/UNSUBSCRIBE arms '
+             'apply it to every filter and map false to Subs_4_7_1 without reaching a handler; the per-level tables of the string MatchLevel impl and of match_level_impl are '
+             'extracted and compared with 4.7 over all (filter kind, topic kind, index==0, string equality) cases; match_topic\'s end-of-topic rule (only None or # succeed); '
+             'the filter-vs-filter relation is monotone w.r.t. the string relation over all kind combinations; every parameter of match_level_impl is used.',
+        note='Not decided: agreement of the structural validator TopicFilter::is_valid / TryFrom<ByteString> with is_valid (iterator-combinator code, no finite table), Display '
+             'round trip, unicode levels. A seeded change in that undecided part (C18-m2) is a documented miss.',
+        ref='DESIGN.md section 5 C18'),
 }
 
 NA_REASONS = {}
